@@ -298,6 +298,10 @@ var rules = []rule{
 	{"unknown-identifier", `nope + 1`}, {"unknown-function", `nope_fn()`}, {"unknown-member", `"s".nope()`},
 	{"unknown-type", `let v: Nope = 1;`}, {"break-outside-loop", `break;`}, {"list-literal-mixed", `[1, "s"]`},
 	{"index-non-int", `[1]["a"]`}, {"branch-if-else", `if true { 1 } else { "s" }`}, {"match-arms", `match 1 { 1 => 1, _ => "s" }`},
+	// a mismatch BELOW the top of two types (the inner type of an option, the element type of a list, a field): the
+	// position is at the use, not at the place where the offending value got its type
+	{"option-inner-mismatch", `let bad_o: ?str = oo;`}, {"list-element-mismatch", `let bad_l: [str] = ll;`}, {"object-field-mismatch", `let bad_f: { x: str } = ff;`},
+	{"nested-option-mismatch", `let bad_n: [?str] = lo;`}, {"option-argument-mismatch", `takes_opt(oo)`}, {"option-return-mismatch", `let bad_r: ?str = gives_opt();`},
 	{"unknown-singleton", `$Nope`}, {"assignment-type", `vv = "s"`}, {"cast-impossible", `"s" as [int]`}, {"implicit-any", `let q = "1".parse_json();`},
 }
 
@@ -328,7 +332,7 @@ var ctxs = []ctx{
 	{"multi-line-call", func(s string) string { return "println(\n        1,\n        2\n    );\n    " + s }},
 }
 
-const helpers = "fn takes_int(x: int) -> int { x }\n"
+const helpers = "fn takes_int(x: int) -> int { x }\nfn takes_opt(x: ?str) -> int { 1 }\nfn gives_opt() -> ?int { ?1 }\n"
 
 func TestTableCulprits(t *testing.T) {
 	pk.SkipIfReplay(t)
@@ -351,7 +355,7 @@ func TestTableCulprits(t *testing.T) {
 				go func(r rule, c ctx, inModule bool) {
 					defer wg.Done()
 					defer func() { <-sem }()
-					body := "let vv = 1;\n    " + c.wrap(stmtOf(r.bad))
+					body := "let vv = 1;\n    let oo: ?int = ?1;\n    let ll: [int] = [1];\n    let ff: { x: int } = new { x: 1 };\n    let lo: [?int] = [?1];\n    println(oo, ll, ff, lo);\n    " + c.wrap(stmtOf(r.bad))
 					var cc CulpritCase
 					if inModule {
 						cc = CulpritCase{Entry: "main", File: "m", Bad: r.bad, Rule: r.name, Context: c.name + "/imported",
